@@ -4,8 +4,10 @@
 // of a sequential history that never returns would block the whole run.  So the run happens in a
 // child process that watches its own progress: no finished case for stallAfter => goroutine dump
 // to $VERIF_BUILD/logs and exit code 75; the parent starts the (deterministically seeded) run
-// again, at most maxAttempts times.  A change of /repo that makes requests hang for good still
-// fails the check: every attempt stalls and the parent exits with 75.
+// again, at most maxAttempts times.  When the last attempt stalls too (a change of /repo that makes
+// requests hang for good), the cases finished so far are written together with one CHung case for
+// the requests in flight, so that the monitor reports them (code 11, or 10 for the recorded
+// deadlock pattern) and the replay file holds their input.
 package main
 
 import (
@@ -15,17 +17,83 @@ import (
 	"path/filepath"
 	"runtime/pprof"
 	"strconv"
+	"sync"
 	"sync/atomic"
 	"time"
+
+	"verif/harness/internal/gen"
 )
 
 const (
-	stallAfter  = 40 * time.Second
+	stallAfter  = 30 * time.Second
 	maxAttempts = 3
 	stallCode   = 75
 )
 
 var lastProgress atomic.Int64
+
+// stallFlush, set by main, writes the cases finished so far plus the in-flight requests as a hung
+// case; it reports whether the case files were written.
+var stallFlush func() bool
+
+// what is being executed right now (for the hung case written when the last attempt stalls)
+type flight struct {
+	mu     sync.Mutex
+	Kind   string
+	Reqs   []reqIn
+	Faults faults
+	Seq    *seqIn
+	Conc   *concIn
+}
+
+var inflight flight
+
+func flightSeq(create string) {
+	inflight.mu.Lock()
+	inflight.Kind, inflight.Reqs, inflight.Faults = "seq", nil, faults{}
+	inflight.Seq, inflight.Conc = &seqIn{Create: create}, nil
+	inflight.mu.Unlock()
+}
+
+func flightStep(st stepIn) {
+	inflight.mu.Lock()
+	inflight.Reqs = append(inflight.Reqs, st.Req)
+	inflight.Faults = st.Faults
+	if inflight.Seq != nil {
+		inflight.Seq.Steps = append(inflight.Seq.Steps, st)
+	}
+	inflight.mu.Unlock()
+}
+
+func flightConc(in concIn) {
+	inflight.mu.Lock()
+	inflight.Kind, inflight.Faults = "conc", in.Faults
+	inflight.Reqs = append([]reqIn{in.Holder}, in.Callers...)
+	c := in
+	inflight.Seq, inflight.Conc = nil, &c
+	inflight.mu.Unlock()
+}
+
+// hungFlight is the case "the requests in flight never returned".
+func hungFlight() gen.Case {
+	inflight.mu.Lock()
+	defer inflight.mu.Unlock()
+	var qs []string
+	for _, q := range inflight.Reqs {
+		qs = append(qs, reqTerm(q))
+	}
+	c := gen.Case{Term: fmt.Sprintf("CHung %s %s", oracleTerm(inflight.Faults), gen.List(qs)), Kind: "stalled-" + inflight.Kind,
+		Obs: map[string]interface{}{"hung": true, "stalled": true}}
+	switch {
+	case inflight.Seq != nil:
+		c.Input = anyIn{Seq: inflight.Seq}
+	case inflight.Conc != nil:
+		c.Input = anyIn{Conc: inflight.Conc}
+	default:
+		c.Input = anyIn{Seq: &seqIn{Create: "hook"}}
+	}
+	return c
+}
 
 func progress() { lastProgress.Store(time.Now().UnixNano()) }
 
@@ -50,6 +118,9 @@ func supervise() {
 						f.Close()
 					}
 					fmt.Fprintf(os.Stderr, "h01: no case finished for %s (attempt %d), goroutine dump in %s\n", stallAfter, attempt(), p)
+					if attempt() >= maxAttempts && stallFlush != nil && stallFlush() {
+						os.Exit(0)
+					}
 					os.Exit(stallCode)
 				}
 			}
